@@ -30,6 +30,7 @@ type Obligation struct {
 
 // Exec is the symbolic execution of one verification target.
 type Exec struct {
+	specReach  string
 	atCallSeen map[*Clause]int
 	revealAll  bool
 	g         *Gen
@@ -894,7 +895,7 @@ func (f *frame) evalInvariant(li *loopInfo, inv *Clause, at *node, slot int, hea
 			fmt.Fprintf(os.Stderr, "inv %s loop%d.%d slot %d binder %s = %v (type %v)\n", f.fn.Name(), li.ordinal, inv.N, slot, k, v.C, v.T)
 		}
 	}
-	return x.evalClause(f, inv, heap, f.entryHeap, f.args, nil, binder)
+	return x.evalClauseAt(at.reach, f, inv, heap, f.entryHeap, f.args, nil, binder)
 }
 
 type Val2 = string
